@@ -145,7 +145,7 @@ def _get_resp_headers(sock, success_statuses: tuple = SUCCESS_STATUSES) -> tuple
     status, resp_headers, status_message = read_headers(sock)
     if status not in success_statuses:
         content_len = resp_headers.get("content-length")
-        if content_len and content_len.isdigit():
+        if content_len and content_len.isdecimal():
             # read (at most a bounded part of) the body of the HTTP error message
             # response and include it in the exception; the declared length is not trusted
             response_body = sock.recv(min(int(content_len), MAX_ERROR_BODY_SIZE))
